@@ -1076,6 +1076,77 @@ pub async fn udp_case() -> Result<&'static str, Violation> {
     Ok("two-flows-relayed")
 }
 
+
+// ------------------------------------------------------------------------------------------------
+// C05 over QUIC: a hot reload switches the certificates the UDP listener presents
+// ------------------------------------------------------------------------------------------------
+
+fn der_of(host: &str) -> Result<Vec<u8>, String> {
+    use base64::Engine;
+    let pem = std::fs::read_to_string(rt::cert_path(host)).map_err(|e| e.to_string())?;
+    let b64: String = pem.lines().filter(|l| !l.starts_with("-----")).collect();
+    base64::engine::general_purpose::STANDARD.decode(b64).map_err(|e| e.to_string())
+}
+
+/// (handshake completed, certificate presented, CONNECT _check answered 200)
+async fn probe(ep: &Endpoint, sni: &str) -> Result<(bool, Option<Vec<u8>>, bool), String> {
+    let mut cl = QuicClient::new(ep.addr, &ClientOpts { sni: sni.into(), ..ClientOpts::default() })?;
+    let established = cl.handshake(Duration::from_secs(3)).await;
+    let cert = cl.peer_cert();
+    let mut served = false;
+    if established {
+        if let Ok(id) = cl.request("CONNECT", "_check", None, &[("proxy-authorization".into(), AUTH.into())], false) {
+            served = cl.response(id, Duration::from_secs(2), 4096, None).await.status == Some(200);
+        }
+    }
+    cl.close();
+    Ok((established, cert, served))
+}
+
+pub async fn reload_case() -> Result<&'static str, Violation> {
+    let case = json!({"kind":"quic-reload"});
+    let mk = |sig: &str, what: String| Violation::new(format!("C05:quic:reload:{sig}"), what, case.clone());
+    let mach = |e: String| Violation::new("C05:machinery", e, json!({}));
+    let cfg_a = Cfg { clients: users(), main_hosts: vec![("m.t".to_string(), vec![])], ..Cfg::default() };
+    let cfg_b = Cfg { clients: users(), main_hosts: vec![("n.t".to_string(), vec![])], ping_hosts: vec!["p.t".into()], ..Cfg::default() };
+    let ep = start(cfg_a).await.map_err(mach)?;
+    let (m_der, n_der) = (der_of("m.t").map_err(mach)?, der_of("n.t").map_err(mach)?);
+    // configuration A
+    let (est, cert, served) = probe(&ep, "m.t").await.map_err(mach)?;
+    if !est || cert.as_deref() != Some(m_der.as_slice()) || !served {
+        return Err(mk("before", format!("under configuration A the host m.t is not served with its certificate (handshake {est}, served {served})")));
+    }
+    // a reload that must be refused (unloadable key) leaves A in force
+    let bad = trusttunnel::settings::TlsHostsSettings::builder()
+        .main_hosts(vec![trusttunnel::settings::TlsHostInfo { hostname: "n.t".into(), cert_chain_path: rt::cert_path("n.t"), private_key_path: rt::fixtures().join("certs").join("bad.key").to_string_lossy().into_owned(), allowed_sni: vec![] }])
+        .build();
+    if let Ok(bad) = bad {
+        if ep.core.reload_tls_hosts_settings(bad).is_ok() {
+            return Err(mk("invalid-accepted", "a host configuration with an unloadable key was accepted".into()));
+        }
+    }
+    let (est, cert, served) = probe(&ep, "m.t").await.map_err(mach)?;
+    if !est || cert.as_deref() != Some(m_der.as_slice()) || !served {
+        return Err(mk("after-failed-reload", "after a refused reload the host m.t is no longer served with its certificate".into()));
+    }
+    // configuration B
+    ep.core.reload_tls_hosts_settings(super::common::build_hosts(&cfg_b).map_err(mach)?).map_err(|e| mk("valid-refused", e.to_string()))?;
+    let (est, cert, served) = probe(&ep, "n.t").await.map_err(mach)?;
+    if !est || cert.as_deref() != Some(n_der.as_slice()) || !served {
+        return Err(mk("after-reload:new-host", format!("after the reload to configuration B the host n.t is not served with its certificate (handshake {est}, right certificate {}, served {served})", cert.as_deref() == Some(n_der.as_slice()))));
+    }
+    // the old name designates nothing any more; C05 states the refusal of such an SNI for TCP only
+    // (on QUIC it is served as the bootstrap host), but the old certificate must be gone
+    let (est, cert, served_old) = probe(&ep, "m.t").await.map_err(mach)?;
+    if std::env::var_os("VERIF_DEBUG").is_some() {
+        eprintln!("quic reload: old SNI after reload: established {est}, certificate is m.t's {}, n.t's {}, served {served_old}", cert.as_deref() == Some(m_der.as_slice()), cert.as_deref() == Some(n_der.as_slice()));
+    }
+    if est && cert.as_deref() == Some(m_der.as_slice()) {
+        return Err(mk("after-reload:old-certificate-still-presented", "after the reload to configuration B (which has no host m.t) the certificate of m.t is still presented".into()));
+    }
+    Ok("switched")
+}
+
 // ------------------------------------------------------------------------------------------------
 // drivers
 // ------------------------------------------------------------------------------------------------
@@ -1122,7 +1193,12 @@ pub fn c05_into(rep: &mut Report) {
             Err(p) => rep.violation(Violation::new("C05:quic:panic", p, json!({"kind":"quic-cert","sni":sni}))),
         }
     }
-    rep.add("evaluations", 6);
+    match super::guarded(|| run_blocking(reload_case())) {
+        Ok(Ok(c)) => classes.push(format!("reload:{c}")),
+        Ok(Err(v)) => rep.violation(v),
+        Err(p) => rep.violation(Violation::new("C05:quic:reload:panic", p, json!({"kind":"quic-reload"}))),
+    }
+    rep.add("evaluations", 7);
     rep.sub.push(json!({"sub":"quic-certificate-selection","cases":6,"classes":classes,
         "what":"QUIC handshakes with SNI {main host, second main host, ping host, credentials form, unknown, unknown with label}: the certificate the client receives is the designated host's; no designation => no handshake"}));
 }
@@ -1298,6 +1374,7 @@ pub fn replay(case: &serde_json::Value) -> Option<Result<(), Violation>> {
     Some(match case["kind"].as_str()? {
         "quic-random" => serde_json::from_value::<RandomCase>(case["case"].clone()).map_err(|_| bad()).and_then(|c| run_blocking(random_case(&c)).map(|_| ())),
         "quic-cert" => run_blocking(cert_case(case["sni"].as_str().unwrap_or("m.t"))).map(|_| ()),
+        "quic-reload" => run_blocking(reload_case()).map(|_| ()),
         "quic-auth" => {
             let h = ["valid", "wrong", "other-scheme", "absent"].into_iter().find(|x| Some(*x) == case["header"].as_str()).unwrap_or("absent");
             let t = if case["target"].as_str() == Some("connect") { "connect" } else { "check" };
